@@ -1,6 +1,7 @@
 package main
 
 import (
+	"go/constant"
 	"fmt"
 	"go/ast"
 	"go/importer"
@@ -134,80 +135,133 @@ func runC04(c *Ctx) {
 	if urlWriter == nil {
 		c.viol("C04.R2", "anchor-lost:url-attribute-writer", "", "no generator function emits `var … templ.SafeURL = <expr>`")
 	} else {
-		// the dispatcher: the condition that selects the URL writer names (a, href) and (form, action)
+		// the dispatcher: the function that calls the URL writer. For concrete (element, attribute) pairs the branch it
+		// takes is computed from its source — whatever form the test has (inline condition, helper predicate, switch,
+		// table loop): evaluating the path conditions on the constants
 		found := false
+		gp := c.pkg("generator")
 		for _, gf := range g.order {
-			ast.Inspect(gf.Decl.Body, func(x ast.Node) bool {
-				is, ok := x.(*ast.IfStmt)
-				if !ok {
-					return true
+			calls := false
+			ast.Inspect(gf.Decl.Body, func(y ast.Node) bool {
+				if call, ok := y.(*ast.CallExpr); ok {
+					if fn := calleeOf(g.info, call); fn != nil && types.Object(fn) == urlWriter.Obj {
+						calls = true
+					}
 				}
-				calls := false
-				ast.Inspect(is.Body, func(y ast.Node) bool {
-					if call, ok := y.(*ast.CallExpr); ok {
-						if fn := calleeOf(g.info, call); fn != nil && fn == urlWriter.Obj {
-							calls = true
+				return true
+			})
+			if !calls || gf == urlWriter {
+				continue
+			}
+			found = true
+			// parameters: the element name (string) and the attribute (has a Name field)
+			var elemObj types.Object
+			attrText := ""
+			for _, prm := range gf.Decl.Type.Params.List {
+				t := g.info.TypeOf(prm.Type)
+				for _, nm := range prm.Names {
+					if t != nil && t.String() == "string" {
+						elemObj = g.info.Defs[nm]
+					}
+					if t != nil && strings.HasSuffix(t.String(), "parser/v2.ExpressionAttribute") {
+						attrText = nm.Name + ".Name"
+					}
+				}
+			}
+			if elemObj == nil || attrText == "" {
+				c.undec("C04.R2", gf.Key+"|url-attributes-routed", c.pos(gf.Decl.Pos()), gf.Name+" calls the URL attribute writer but does not take (element name string, parser.ExpressionAttribute)")
+				continue
+			}
+			den := &denum{info: g.info, pkg: gp.Types, inits: map[types.Object]ast.Expr{}, limit: 20000, opaqueLoops: true}
+			den.finish(den.run(gf.Decl.Body.List, []dstate{{env: map[types.Object]ast.Expr{}}}))
+			if den.undecided != "" {
+				c.undec("C04.R2", gf.Key+"|url-attributes-routed", c.pos(gf.Decl.Pos()), gf.Name+": "+den.undecided)
+				continue
+			}
+			// the sibling value writers: package-local callees that receive the attribute
+			valueWriter := func(st ast.Stmt) (urlW, other bool) {
+				ast.Inspect(st, func(y ast.Node) bool {
+					call, ok := y.(*ast.CallExpr)
+					if !ok {
+						return true
+					}
+					fn := calleeOf(g.info, call)
+					if fn == nil || fn.Pkg() != gp.Types {
+						return true
+					}
+					takesAttr := false
+					for _, a := range call.Args {
+						if t := g.info.TypeOf(a); t != nil && strings.HasSuffix(t.String(), "parser/v2.ExpressionAttribute") {
+							takesAttr = true
 						}
+					}
+					if !takesAttr {
+						return true
+					}
+					if types.Object(fn) == urlWriter.Obj {
+						urlW = true
+					} else {
+						other = true
 					}
 					return true
 				})
-				if !calls {
-					return true
-				}
-				found = true
-				// disjunction of conjunctions elementName == "x" && attr.Name == "y"
-				pairs := map[string]bool{}
-				var caseSensitive []string
-				var walk func(e ast.Expr)
-				walk = func(e ast.Expr) {
-					e = ast.Unparen(e)
-					be, ok := e.(*ast.BinaryExpr)
-					if !ok {
-						return
+				return
+			}
+			route := func(elem, attr string) (string, bool) {
+				ce := newCenv(g.info, gp.Types, allFuncDecls(gp))
+				ce.byObj[elemObj] = constant.MakeString(elem)
+				ce.byText[attrText] = constant.MakeString(attr)
+				toURL, toOther, n := 0, 0, 0
+				for _, pth := range den.paths {
+					if !ce.feasible(pth) {
+						continue
 					}
-					if be.Op == token.LOR {
-						walk(be.X)
-						walk(be.Y)
-						return
+					u, o := false, false
+					for _, st := range pth.Trace {
+						a, b := valueWriter(st)
+						u, o = u || a, o || b
 					}
-					if be.Op == token.LAND {
-						var consts []string
-						for i, side := range []ast.Expr{be.X, be.Y} {
-							if b2, ok := ast.Unparen(side).(*ast.BinaryExpr); ok && b2.Op == token.EQL {
-								if s, ok := constString(g.info, b2.Y); ok {
-									consts = append(consts, s)
-									// the attribute name (second conjunct) compared with ==: exact case only
-									if i == 1 && !strings.Contains(types.ExprString(b2.X), "ToLower") {
-										caseSensitive = append(caseSensitive, s)
-									}
-								}
-							}
-							if call, ok := ast.Unparen(side).(*ast.CallExpr); ok && len(call.Args) == 2 {
-								if fn := calleeOf(g.info, call); fn != nil && fullName(fn) == "strings.EqualFold" {
-									for _, a := range call.Args {
-										if s, ok := constString(g.info, a); ok {
-											consts = append(consts, s)
-										}
-									}
-								}
-							}
-						}
-						if len(consts) == 2 {
-							pairs[consts[0]+"/"+consts[1]] = true
-						}
+					if !u && !o {
+						continue // left before the value was written (an earlier write failed)
+					}
+					n++
+					if u {
+						toURL++
+					}
+					if o {
+						toOther++
 					}
 				}
-				walk(is.Cond)
-				c.check(pairs["a/href"] && pairs["form/action"], "C04.R2", gf.Key+"|url-attributes-routed", c.pos(is.Pos()), fmt.Sprintf("routed to the SafeURL emission: %v", keysOfBool(pairs)),
-					fmt.Sprintf("%s routes %v to the SafeURL emission; (a, href) and (form, action) must be among them, otherwise a plain string compiles as a link target", gf.Name, keysOfBool(pairs)))
-				c.check(len(caseSensitive) == 0, "C04.R2", gf.Key+"|url-attribute-names-case-insensitive", c.pos(is.Pos()), "attribute names are compared case-insensitively",
-					fmt.Sprintf("%s compares the attribute name with == %q: HTML attribute names are case-insensitive, so <a HREF={ s }> (or Href, hReF …) is a link target in the browser but takes the plain-string path here — a string compiles and is written without templ.URL", gf.Name, caseSensitive))
-				// it must be the first alternative (no earlier branch can capture href)
-				return true
-			})
+				switch {
+				case n == 0:
+					return "no path writes a value", false
+				case toOther > 0:
+					return fmt.Sprintf("%d of %d feasible paths hand the value to another writer", toOther, n), false
+				}
+				return fmt.Sprintf("%d feasible path(s), all through the URL writer", toURL), true
+			}
+			var bad []string
+			for _, pr := range [][2]string{{"a", "href"}, {"form", "action"}} {
+				if why, ok := route(pr[0], pr[1]); !ok {
+					bad = append(bad, fmt.Sprintf("<%s %s>: %s", pr[0], pr[1], why))
+				}
+			}
+			c.check(len(bad) == 0, "C04.R2", gf.Key+"|url-attributes-routed", c.pos(gf.Decl.Pos()), "<a href> and <form action> are routed to the SafeURL emission on every path",
+				fmt.Sprintf("%s does not route %s to the SafeURL emission, so a plain string compiles as a link target", gf.Name, strings.Join(bad, "; ")))
+			var badCase []string
+			for _, pr := range [][2]string{{"a", "HREF"}, {"a", "Href"}, {"a", "hReF"}, {"form", "ACTION"}, {"form", "Action"}} {
+				if _, ok := route(pr[0], pr[1]); !ok {
+					badCase = append(badCase, "<"+pr[0]+" "+pr[1]+">")
+				}
+			}
+			c.check(len(badCase) == 0, "C04.R2", gf.Key+"|url-attribute-names-case-insensitive", c.pos(gf.Decl.Pos()), "attribute names are compared case-insensitively",
+				fmt.Sprintf("%s takes the plain-string path for %s: HTML attribute names are case-insensitive, so this is a link target in the browser, but its value compiles from any string and is written without the URL sanitiser's type", gf.Name, strings.Join(badCase, ", ")))
+			// and nothing else is sent there by mistake is not a safety matter; but a control: an ordinary attribute is NOT routed to the URL writer
+			_, ctl := route("div", "title")
+			c.control("C04.R2:dispatch-evaluator-distinguishes", !ctl)
 		}
 		if !found {
-			c.viol("C04.R2", "anchor-lost:url-dispatch", "", "no condition selects the URL attribute writer")
+			c.viol("C04.R2", "anchor-lost:url-dispatch", "", "no function hands attributes to the URL attribute writer")
 		}
 	}
 	// type-level witnesses
